@@ -1008,6 +1008,19 @@ def m_map(i, args, kw, st, node):
     return UNK
 
 
+def m_filter(i, args, kw, st, node):
+    if len(args) == 2 and isinstance(args[1], (tuple, list, range)) and len(args[1]) <= 64:
+        out = []
+        for x in args[1]:
+            t = truth(x if args[0] is None else i.call_value(args[0], [x], {}, st, node))
+            if t is None:
+                return UNK
+            if t:
+                out.append(x)
+        return out
+    return UNK
+
+
 def m_dict(i, args, kw, st, node):
     if not args:
         return dict(kw)
@@ -1056,7 +1069,7 @@ EXT_MODELS = {
     "int": m_int, "bool": m_bool, "bytes": m_bytes("bytes"),
     "bytearray": m_bytes("bytearray"), "str": m_str,
     "isinstance": m_isinstance, "range": m_range, "tuple": m_seq(tuple),
-    "list": m_seq(list), "dict": m_dict, "map": m_map,
+    "list": m_seq(list), "dict": m_dict, "map": m_map, "filter": m_filter,
     "set": m_seq(frozenset), "frozenset": m_seq(frozenset),
     "sorted": m_sorted, "reversed": lambda i, a, k, s, n: list(reversed(a[0])) if a and isinstance(a[0], (list, tuple, bytes, str, range)) else UNK,
     "enumerate": m_enumerate, "zip": m_zip, "sum": m_sum,
